@@ -23,7 +23,7 @@ import numpy as np
 from scipy.stats import betabinom  # type: ignore[import]
 
 from black_it.samplers.base import BaseSampler
-from black_it.utils.base import _assert
+from black_it.utils.base import _assert, digitize_data
 
 if TYPE_CHECKING:
     from numpy.typing import NDArray
@@ -148,4 +148,6 @@ class BestBatchSampler(BaseSampler):
                     search_space.parameters_bounds[1][index],
                 )
 
-        return sampled_points
+        # shifts by whole precision steps and clipping to the bounds can leave the precision grid (bounds that
+        # are not grid points, floating point drift): snap onto the grid like every other sampler
+        return digitize_data(sampled_points, search_space.param_grid)
